@@ -1057,6 +1057,22 @@ void addUniquenessFaults(std::vector<Fault> &cat)
                                             rs.insert(first ? rs.begin() : rs.end(), mkReset(tv, order));
                                         }));
                     out.back().must = kv.second >= 2;
+                    if (above == "/below-components-with-resets") {
+                        // the same fault with the resets of every component above removed (valid as before): the
+                        // duplicate now sits below components that have no resets of their own
+                        out.push_back(irLoc(rel + "/" + compClass(m, tc) + "/below-a-component-without-resets" + (first ? "/first" : "/last"),
+                                            "new reset on variable '" + tv + "' of component #" + std::to_string(tc) + " with the order " + std::to_string(order) + " of reset " + std::to_string(ri) + " of component #" + std::to_string(ci) + " (" + rel + "), resets of all components above removed",
+                                            [=](IrModel &f) {
+                                                auto &rs = f.comps[static_cast<size_t>(tc)].resets;
+                                                rs.insert(first ? rs.begin() : rs.end(), mkReset(tv, order));
+                                                for (int a = f.comps[static_cast<size_t>(tc)].parent; a >= 0; a = f.comps[static_cast<size_t>(a)].parent) {
+                                                    if (a != static_cast<int>(ci)) {
+                                                        f.comps[static_cast<size_t>(a)].resets.clear();
+                                                    }
+                                                }
+                                            }));
+                        out.back().must = true;
+                    }
                 }
             }
         }
